@@ -244,6 +244,9 @@ func Ite(c, a, b *Term) *Term {
 			return Not(c)
 		}
 	}
+	if (a.S == SReal && b.S == SInt) || (a.S == SInt && b.S == SReal) {
+		a, b = ToReal(a), ToReal(b)
+	}
 	if !a.S.Eq(b.S) {
 		panic(fmt.Sprintf("Ite sort mismatch %s vs %s: %s / %s", a.S, b.S, a, b))
 	}
